@@ -173,7 +173,7 @@ def gen_session(args) -> Dict[str, Any]:
     upd, dec = gcfg["update"], gcfg["decay"]
     c = {"lo": T.enc(upd["clamp_min"]), "hi": T.enc(upd["clamp_max"]), "floor": T.enc(dec["floor"]),
          "thr": T.enc(gcfg["coactivation_threshold"]), "topk": min(int(gcfg["observe_top_k"]), 100000),
-         "cap": min(int(gcfg["pair_cap_per_obs"]), 100000), "tol": list(tol)}
+         "cap": min(int(gcfg["pair_cap_per_obs"]), 100000)}
     d = _env("cs")
     state: Dict[str, Any] = {"version_etag": "0", "_boot_loaded": True}
     from clematis.engine import gel
@@ -258,8 +258,7 @@ def check(run) -> None:
         run.sample({"family": "turn", "transition": pick[0][1]}, cap=12)
     # ---- C->S: sessions of real turns ------------------------------------------------------------------
     n, turns = (12, 8) if q else (300, 12)
-    tol = sorted(e["signature"].get("cause") for e in run.known
-                 if e.get("status") == "open" and e["signature"].get("clause") == "WithinClamp" and e["signature"].get("cause"))
+    tol: List[str] = []
     args = [(run.seed, 100000 + i, turns, tuple(tol)) for i in range(n)]
     traces = pmap(gen_session, args, procs=None if not q else 4, chunk=1)
     cfgs = {t["tid"]: t.pop("cfg") for t in traces}
